@@ -141,6 +141,12 @@ fn id_set(id: u64, live: bool) {
 pub fn clone_panic_at(k: i64) { CLONE_PANIC_AT.with(|c| c.set(k)); }
 pub fn reset_clone_counter() { unsafe { NEXT_CLONE = 1_000_000; } }
 
+thread_local! { static CLONE_HOOK: RefCell<Option<Box<dyn FnMut()>>> = RefCell::new(None); }
+/// user code inside `T::clone` (called by make_mut / make_unique / unwrap_or_clone): the hook, if armed, runs ONCE at the
+/// start of the next `Tracked::clone` — re-entrant use of other handles to the same value from inside the library call
+pub fn set_clone_hook(h: Option<Box<dyn FnMut()>>) { CLONE_HOOK.with(|c| *c.borrow_mut() = h); }
+fn run_clone_hook() { let h = CLONE_HOOK.with(|c| c.borrow_mut().take()); if let Some(mut f) = h { f(); } }
+
 /// An 8-byte, 4-aligned payload with an identity, a mutable value, and logged drop/clone.
 #[cfg(not(feature = "t_zst"))]
 #[repr(C)]
@@ -168,6 +174,7 @@ impl Drop for Tracked {
 #[cfg(not(feature = "t_zst"))]
 impl Clone for Tracked {
     fn clone(&self) -> Self {
+        run_clone_hook();
         let k = CLONE_PANIC_AT.with(|c| c.get());
         if k == 0 { CLONE_PANIC_AT.with(|c| c.set(-1)); panic!("scripted clone panic"); }
         if k > 0 { CLONE_PANIC_AT.with(|c| c.set(k - 1)); }
@@ -194,6 +201,7 @@ impl Drop for Tracked { fn drop(&mut self) { push_ev(Ev::Drop(0)); } }
 #[cfg(feature = "t_zst")]
 impl Clone for Tracked {
     fn clone(&self) -> Self {
+        run_clone_hook();
         let k = CLONE_PANIC_AT.with(|c| c.get());
         if k == 0 { CLONE_PANIC_AT.with(|c| c.set(-1)); panic!("scripted clone panic"); }
         if k > 0 { CLONE_PANIC_AT.with(|c| c.set(k - 1)); }
